@@ -76,6 +76,9 @@ func (p *ProofU) correctResponseSizes(pk *gabikeys.PublicKey) bool {
 
 // VerifyWithChallenge verifies whether the proof is correct.
 func (p *ProofU) VerifyWithChallenge(pk *gabikeys.PublicKey, reconstructedChallenge *big.Int) bool {
+	if p.validateStructure(pk) != nil {
+		return false
+	}
 	return p.correctResponseSizes(pk) && p.C.Cmp(reconstructedChallenge) == 0
 }
 
@@ -121,9 +124,27 @@ func (p *ProofU) Challenge() *big.Int {
 	return p.C
 }
 
+// validateStructure checks that all elements of the proof are present and that all attribute
+// indices refer to bases of the public key, so that verification of an untrusted
+// (e.g. freshly unmarshaled) proof cannot panic.
+func (p *ProofU) validateStructure(pk *gabikeys.PublicKey) error {
+	if p.U == nil || p.C == nil || p.VPrimeResponse == nil || p.SResponse == nil {
+		return errors.New("incomplete ProofU")
+	}
+	for i, response := range p.MUserResponses {
+		if i < 0 || i >= len(pk.R) || response == nil {
+			return errors.New("invalid user response in ProofU")
+		}
+	}
+	return nil
+}
+
 // ChallengeContribution returns the contribution of this proof to the
 // challenge.
 func (p *ProofU) ChallengeContribution(pk *gabikeys.PublicKey) ([]*big.Int, error) {
+	if err := p.validateStructure(pk); err != nil {
+		return nil, err
+	}
 	Ucommit, err := p.reconstructUcommit(pk)
 	if err != nil {
 		return nil, err
@@ -194,6 +215,38 @@ func (p *ProofD) reconstructRangeProofStructures(pk *gabikeys.PublicKey) error {
 				return err
 			}
 			p.cachedRangeStructures[index] = append(p.cachedRangeStructures[index], s)
+		}
+	}
+	return nil
+}
+
+// validateStructure checks that all mandatory elements of the proof are present, that all
+// attribute indices refer to bases of the public key, and that optional subproofs are complete,
+// so that verification of an untrusted (e.g. freshly unmarshaled) proof cannot panic.
+func (p *ProofD) validateStructure(pk *gabikeys.PublicKey) error {
+	if p.C == nil || p.A == nil || p.EResponse == nil || p.VResponse == nil {
+		return errors.New("incomplete ProofD")
+	}
+	for i, response := range p.AResponses {
+		if i < 0 || i >= len(pk.R) || response == nil {
+			return errors.New("invalid attribute response in ProofD")
+		}
+	}
+	for i, attribute := range p.ADisclosed {
+		if i < 0 || i >= len(pk.R) || attribute == nil {
+			return errors.New("invalid disclosed attribute in ProofD")
+		}
+	}
+	if p.NonRevocationProof != nil {
+		if err := p.NonRevocationProof.ValidateStructure(); err != nil {
+			return err
+		}
+	}
+	for _, proofs := range p.RangeProofs {
+		for _, proof := range proofs {
+			if proof == nil {
+				return errors.New("missing range proof in ProofD")
+			}
 		}
 	}
 	return nil
@@ -293,6 +346,9 @@ func (p *ProofD) HasNonRevocationProof() bool {
 // VerifyWithChallenge verifies the proof against the given public key and the provided
 // reconstructed challenge.
 func (p *ProofD) VerifyWithChallenge(pk *gabikeys.PublicKey, reconstructedChallenge *big.Int) bool {
+	if p.validateStructure(pk) != nil {
+		return false
+	}
 	var notrevoked bool
 	// Validate non-revocation
 	if p.HasNonRevocationProof() {
@@ -315,6 +371,9 @@ func (p *ProofD) VerifyWithChallenge(pk *gabikeys.PublicKey, reconstructedChalle
 // ChallengeContribution returns the contribution of this proof to the
 // challenge.
 func (p *ProofD) ChallengeContribution(pk *gabikeys.PublicKey) ([]*big.Int, error) {
+	if err := p.validateStructure(pk); err != nil {
+		return nil, err
+	}
 	z, err := p.reconstructZ(pk)
 	if err != nil {
 		return nil, errors.WrapPrefix(err, "Could not reconstruct Z", 0)
